@@ -26,9 +26,11 @@ import (
 	v3 "github.com/projectcalico/api/pkg/apis/projectcalico/v3"
 	"github.com/projectcalico/api/pkg/lib/numorstring"
 	log "github.com/sirupsen/logrus"
+	googleproto "google.golang.org/protobuf/proto"
 
 	"github.com/projectcalico/calico/felix/calc"
 	"github.com/projectcalico/calico/felix/config"
+	"github.com/projectcalico/calico/felix/proto"
 	"github.com/projectcalico/calico/lib/std/uniquelabels"
 	"github.com/projectcalico/calico/libcalico-go/lib/backend/api"
 	"github.com/projectcalico/calico/libcalico-go/lib/backend/model"
@@ -230,6 +232,10 @@ func corruptRule(r *model.Rule, how int) string {
 		r.Protocol = &p
 		r.SrcPorts = []numorstring.Port{{MinPort: 0, MaxPort: 0}}
 		return "rule.port-zero"
+	case 10:
+		// backendActionRegex = ^(allow|deny|log|next-tier|)$ is the validator's rule for a backend rule's action
+		r.Action = "bogus"
+		return "rule.action=bogus"
 	default:
 		r.OriginalDstSelector = "has("
 		return "rule.bad-orig-dst-selector"
@@ -238,8 +244,20 @@ func corruptRule(r *model.Rule, how int) string {
 
 const nRuleCorruptions = 10
 
+// unknownActionStream: this case belongs to the dedicated stream in which rules are (also) made invalid by an
+// action outside the validator's backendAction set.  The main stream never does that.
+var unknownActionStream bool
+var unknownActionUsed bool
+
 func corruptRules(r *rng, in, out *[]model.Rule) string {
 	how := r.intn(nRuleCorruptions)
+	if how == 10 {
+		how = 9
+	}
+	if unknownActionStream && (!unknownActionUsed || r.intn(2) == 0) {
+		how = 10
+		unknownActionUsed = true
+	}
 	tgt := in
 	dir := "in"
 	if r.intn(2) == 0 {
@@ -565,7 +583,8 @@ func (c *recorder) counts(nt, np, npr, nalp int) {
 
 // sink behind the real ValidationFilter
 type sink struct {
-	arc     *calc.ActiveRulesCalculator
+	next    func(api.Update)
+	status  func(api.SyncStatus)
 	rec     *recorder
 	fwd     []api.Update
 	inSyncs int
@@ -573,7 +592,7 @@ type sink struct {
 
 func (s *sink) OnStatusUpdated(st api.SyncStatus) {
 	s.inSyncs++
-	s.arc.OnStatusUpdate(st)
+	s.status(st)
 }
 func (s *sink) OnUpdates(us []api.Update) {
 	for _, u := range us {
@@ -585,8 +604,80 @@ func (s *sink) OnUpdates(us []api.Update) {
 					s.rec.sample = append(s.rec.sample, fmt.Sprintf("PANIC(%v)", r))
 				}
 			}()
-			s.arc.OnUpdate(u)
+			s.next(u)
 		}()
+	}
+}
+
+// whole-graph mode: messages flushed by the real EventSequencer
+func canonProtoRule(r *proto.Rule) aRule {
+	a := aRule{action: r.Action}
+	rest := googleproto.Clone(r).(*proto.Rule)
+	rest.Action = ""
+	rest.RuleId = ""
+	if r.Protocol != nil {
+		switch v := r.Protocol.NumberOrName.(type) {
+		case *proto.Protocol_Name:
+			switch strings.ToLower(v.Name) {
+			case "tcp":
+				a.proto = 6
+			case "udp":
+				a.proto = 17
+			default:
+				a.ipver = 99
+			}
+		case *proto.Protocol_Number:
+			a.proto = int(v.Number)
+		}
+		rest.Protocol = nil
+	}
+	for _, p := range r.DstPorts {
+		a.dports = append(a.dports, [2]int{int(p.First), int(p.Last)})
+	}
+	rest.DstPorts = nil
+	if r.IpVersion != proto.IPVersion_ANY {
+		if a.ipver == 0 {
+			a.ipver = int(r.IpVersion)
+		}
+		rest.IpVersion = proto.IPVersion_ANY
+	}
+	if !googleproto.Equal(rest, &proto.Rule{}) {
+		a.ipver = 99
+	}
+	switch r.Action {
+	case "allow", "deny", "log", "next-tier":
+	default:
+		a.ipver = 99
+	}
+	return a
+}
+func canonProtoRules(rs []*proto.Rule) []aRule {
+	var out []aRule
+	for _, r := range rs {
+		out = append(out, canonProtoRule(r))
+	}
+	return out
+}
+func (c *recorder) onProto(m any) {
+	if os.Getenv("C05_DEBUG") != "" {
+		fmt.Fprintf(os.Stderr, "proto %T\n", m)
+	}
+	switch m := m.(type) {
+	case *proto.ActiveProfileUpdate:
+		id, ok := idOf(m.Id.Name, "prof-")
+		if !ok {
+			id = 9999
+		}
+		p := aProfile{in: canonProtoRules(m.Profile.InboundRules), out: canonProtoRules(m.Profile.OutboundRules)}
+		c.evs = append(c.evs, fmt.Sprintf("EProfActive %d %s", id, coqProfile(p)))
+		c.sample = append(c.sample, fmt.Sprintf("proto.ActiveProfileUpdate(%s in=%v out=%v)", m.Id.Name, p.in, p.out))
+	case *proto.ActiveProfileRemove:
+		id, ok := idOf(m.Id.Name, "prof-")
+		if !ok {
+			id = 9999
+		}
+		c.evs = append(c.evs, fmt.Sprintf("EProfInactive %d", id))
+		c.sample = append(c.sample, fmt.Sprintf("proto.ActiveProfileRemove(%s)", m.Id.Name))
 	}
 }
 
@@ -612,17 +703,35 @@ func (w *world) referenced(p int) bool {
 
 var conf = config.New()
 
-func runCase(r *rng, enc *json.Encoder, replay bool) {
+func runCase(r *rng, enc *json.Encoder, graph bool, uaStream bool) {
+	unknownActionStream, unknownActionUsed = uaStream, false
 	const nProf, nPol, nTier = 4, 4, 3
 	epIDs := []int{0, 1, 2, 100, 101}
 
 	rec := &recorder{}
-	arc := calc.NewActiveRulesCalculator()
-	arc.RuleScanner = rec
-	arc.RegisterPolicyMatchListener(rec)
-	arc.OnPolicyCountsChanged = rec.counts
-	sk := &sink{arc: arc, rec: rec}
-	vf := calc.NewValidationFilter(sk, conf)
+	sk := &sink{rec: rec}
+	flush := func() {}
+	var vf *calc.ValidationFilter
+	if graph {
+		// a fresh config per graph: the graph's config batcher writes into it
+		gconf := config.New()
+		gconf.FelixHostname = "host"
+		es := calc.NewEventSequencer(gconf)
+		es.Callback = rec.onProto
+		cg := calc.NewCalculationGraph(es, calc.NewLookupsCache(), gconf, func() {})
+		sk.next = func(u api.Update) { cg.OnUpdates([]api.Update{u}) }
+		sk.status = cg.OnStatusUpdated
+		flush = func() { cg.Flush(); es.Flush() }
+		vf = calc.NewValidationFilter(sk, gconf)
+	} else {
+		arc := calc.NewActiveRulesCalculator()
+		arc.RuleScanner = rec
+		arc.RegisterPolicyMatchListener(rec)
+		arc.OnPolicyCountsChanged = rec.counts
+		sk.next = func(u api.Update) { arc.OnUpdate(u) }
+		sk.status = arc.OnStatusUpdate
+		vf = calc.NewValidationFilter(sk, conf)
+	}
 
 	w := &world{profs: map[int]bool{}, pols: map[int]bool{}, eps: map[int]aEndpoint{}, tiers: map[int]bool{}}
 	nops := 10 + r.intn(28)
@@ -775,6 +884,7 @@ func runCase(r *rng, enc *json.Encoder, replay bool) {
 				}
 			}()
 			vf.OnUpdates([]api.Update{upd})
+			flush()
 		}()
 
 		// what did the filter forward?
@@ -827,7 +937,15 @@ func runCase(r *rng, enc *json.Encoder, replay bool) {
 		sample = append(sample, fmt.Sprintf("%s -> fwd=%s %s", kp, fwd, strings.Join(rec.sample, " ")))
 	}
 
-	coq := fmt.Sprintf("(Build_case [%s]%%N)", strings.Join(ops, ";\n "))
+	coq := fmt.Sprintf("(Build_case %v [%s]%%N)", graph, strings.Join(ops, ";\n "))
+	if uaStream {
+		tags["stream:unknown-action"] = true
+	}
+	if graph {
+		tags["mode:whole-graph"] = true
+	} else {
+		tags["mode:arc"] = true
+	}
 	if sawDummy {
 		tags["dummy-emitted"] = true
 	}
@@ -845,7 +963,7 @@ func runCase(r *rng, enc *json.Encoder, replay bool) {
 		tl = append(tl, t)
 	}
 	sort.Strings(tl)
-	_ = enc.Encode(line{Coq: coq, NT: sawDummy && (sawReplace || sawInvalidOverValid || sawDeleteWhileRef), Key: strings.Join(keyParts, ";"),
+	_ = enc.Encode(line{Coq: coq, NT: sawDummy && (sawReplace || sawInvalidOverValid || sawDeleteWhileRef), Key: fmt.Sprintf("graph=%v;ua=%v;", graph, uaStream) + strings.Join(keyParts, ";"),
 		Sample: map[string]any{"trace": sample}, Tags: tl})
 }
 
@@ -857,13 +975,18 @@ func lastPart(s string) string {
 func main() {
 	n := flag.Int("n", 100, "cases")
 	seed := flag.Uint64("seed", 1, "seed")
+	graphEvery := flag.Int("graph-every", 4, "every k-th case runs the whole calculation graph (0 = never)")
+	uaEvery := flag.Int("unknown-action-every", 10, "every k-th case belongs to the unknown-rule-action stream (0 = never)")
 	flag.Parse()
 	log.SetLevel(log.PanicLevel)
+	if os.Getenv("C05_DEBUG") == "2" {
+		log.SetLevel(log.DebugLevel)
+	}
 	log.SetOutput(os.Stderr)
 	r := &rng{s: *seed}
 	enc := json.NewEncoder(os.Stdout)
 	enc.SetEscapeHTML(false)
 	for i := 0; i < *n; i++ {
-		runCase(r, enc, false)
+		runCase(r, enc, *graphEvery > 0 && i%*graphEvery == *graphEvery-1, *uaEvery > 0 && i%*uaEvery == *uaEvery-1)
 	}
 }
